@@ -151,11 +151,11 @@ let () =
   Printf.printf "STATUS %s\n" status;
   Printf.printf "CHECK %d\n" (if check_closed p f then 1 else 0);
   List.iter (fun (a, m) ->
-      List.iter (fun (b, ls) -> Printf.printf "PTS %d %d : %s\n" (int_of_pos a) (int_of_pos b) (labs ls)) (PM.elements m))
+      List.iter (fun (b, ls) -> Printf.printf "PTS %d %d : %s\n" (int_of_pos a) (int_of_pos b) (labs (ls_elements ls))) (PM.elements m))
     (PM.elements f.m_reg);
   List.iter (fun (a, m) ->
-      List.iter (fun (b, ls) -> Printf.printf "CELL %d %d : %s\n" (int_of_pos a) (int_of_pos b - 1) (labs ls)) (PM.elements m))
+      List.iter (fun (b, ls) -> Printf.printf "CELL %d %d : %s\n" (int_of_pos a) (int_of_pos b - 1) (labs (ls_elements ls))) (PM.elements m))
     (PM.elements f.m_cell);
-  List.iter (fun (a, ls) -> Printf.printf "RET %d : %s\n" (int_of_pos a) (labs ls)) (PM.elements f.m_ret);
+  List.iter (fun (a, ls) -> Printf.printf "RET %d : %s\n" (int_of_pos a) (labs (ls_elements ls))) (PM.elements f.m_ret);
   List.iter (fun (a, _) -> Printf.printf "REACH %d\n" (int_of_pos a)) (PM.elements f.m_reach);
   List.iter (fun (a, gs) -> List.iter (fun g -> Printf.printf "EDGE %d %d\n" (int_of_pos a) (int_of_pos g)) gs) (PM.elements f.m_edge)
